@@ -261,7 +261,12 @@ def _cfgparser_ctor(ex, args, kwargs, st, node):
     agreeing with the TOML reader (C18). The view may be assumed only for `_ConfigParser()` on the raw base."""
     import configparser
 
-    default_dialect = not args and not kwargs and configparser.RawConfigParser in config._ConfigParser.__mro__ and not any(
+    import inspect
+
+    _defaults = {n: q.default for n, q in inspect.signature(configparser.RawConfigParser.__init__).parameters.items() if q.default is not inspect.Parameter.empty}
+    # spelling out a default (strict=True, delimiters=("=", ":")) changes nothing and is accepted
+    explicit_defaults_only = all(k in _defaults and not V.contains_sym(v) and (v == _defaults[k] or v is _defaults[k]) for k, v in kwargs.items())
+    default_dialect = not args and explicit_defaults_only and configparser.RawConfigParser in config._ConfigParser.__mro__ and not any(
         k is not configparser.RawConfigParser and issubclass(k, configparser.RawConfigParser) and k is not config._ConfigParser for k in config._ConfigParser.__mro__
     )
     overridden = sorted(n for n in vars(config._ConfigParser) if not n.startswith("__") and not n.startswith("_abc_") and n != "optionxform")
